@@ -104,7 +104,7 @@ func ruleC09g(c *Ctx) []*report.Result {
 				{
 					// (1) fresh storage
 					if call, isCall := st.Val.(*ssa.Call); isCall {
-						if f := call.Common().StaticCallee(); f != nil && f.String() == pkgEscape+".InternalEscapeBytes" {
+						if f := call.Common().StaticCallee(); f != nil && f.String() == escapeFnName {
 							r.Ok(name + " installs the escaped buffer @" + pos)
 							continue
 						}
